@@ -48,7 +48,7 @@ ASSUMPTIONS = [
     "quantized_relu_po2(negative_slope != 0) is not generated as a weight "
     "quantizer (the dictionary has no sign entry for it by design)",
 ]
-BUDGET_S = {"quick": 70, "thorough": 840}
+BUDGET_S = {"quick": 55, "thorough": 780}
 REQUIRED_LABELS = {
     "quick": ["export", "export2", "predict", "freeze", "di_model", "dd_model",
               "rel:po2", "rel:relu_po2", "rel:auto_po2", "rel:auto_po2_scale_ne_1",
